@@ -165,6 +165,12 @@ func evaluate(info outInfo, out []byte, eol string, oracle bool, ctxFrees []free
 	if ck.sec == nil || ck.scan == nil {
 		return
 	}
+	if info.Variant != "" {
+		// generated documents: was the once-free object 5 materialised ("5 g obj null") and turned in-use?
+		if e, ok := ck.merged[5]; ok && e.typ == 1 && !strings.HasSuffix(info.Variant, ":optimize") && info.XRef == "table" {
+			r.Count("gen-revived-free-object:" + info.Variant)
+		}
+	}
 	r.CountN("objects:inuse", ck.nInUse)
 	r.CountN("objects:compressed", ck.nComp)
 	r.CountN("objects:free", ck.nFree)
@@ -568,6 +574,12 @@ func rawDoc(g int, twoFree bool, stale string, refGen int) []byte {
 		page += "/Annots[" + ref + "]"
 	case "pagekey":
 		page += "/C18X " + ref
+	case "procset-array":
+		page += "/Resources<</ProcSet[/PDF " + ref + "]>>"
+	case "xobject":
+		page += "/Resources<</XObject<</X0 " + ref + ">>>>"
+	case "group":
+		page += "/Group " + ref
 	}
 	page += ">>"
 	cat := "<</Type/Catalog/Pages 2 0 R"
@@ -643,7 +655,7 @@ func generated() {
 		}},
 		{"optimize", func(in []byte, w io.Writer, c *model.Configuration) error { return api.Optimize(rd(in), w, c) }},
 	}
-	for _, stale := range []string{"", "annots", "annots-array", "pagekey", "catalog", "info"} {
+	for _, stale := range []string{"", "annots", "annots-array", "procset-array", "xobject", "group", "pagekey", "catalog", "info"} {
 		for g := 1; g <= 3; g++ {
 			for _, twoFree := range []bool{false, true} {
 				refGens := []int{g - 1}
